@@ -2417,6 +2417,14 @@ class CallMixin(object):
     # ---------------------------------------------------------------- repository functions
     def call_function(self, fi, args, kw, st, self_cls=None, node=None):
         c = self.reg.get(fi.file, fi.qualname)
+        if c is not None and not c.inline and args and not isinstance(args[0], StarSeq):
+            # a second contract `f@view` of the same function whose FIRST parameter is declared for the class of the actual argument is the one that applies
+            a0 = self.deref(args[0], st)
+            p0 = list(c.params.values())[0] if c.params else None
+            if isinstance(a0, Obj) and p0 is not None and p0.kind == 'Obj' and p0.args[0] != a0.cls:
+                for (f_, q_), c2 in self.reg.contracts.items():
+                    if f_ == fi.file and '@' in q_ and q_.split('@')[0] == fi.qualname and c2.params and list(c2.params.values())[0] == T.Obj(a0.cls):
+                        c = c2; break
         if c is not None and not c.inline and not (fi is self.fi and self.call_depth == 0 and False):
             return self.call_contract(c, fi, args, kw, st, node)
         if c is None and not self.auto_inline(fi):
